@@ -100,7 +100,7 @@ def check(out, geom_name):
     e = float(Fraction(f0) + Fraction(df) * Fraction(out["fmid2"], 2 * FQ))
     if abs(frame.fmid - e) > ftol(df, e):
         raise Div("fmid", e, frame.fmid)
-    ts = np.asarray(frame.ts, dtype=float)
+    ts = np.array(frame.ts, dtype=float)              # a copy: the axis is moved in place further down
     if ts.shape != (T,):
         raise Div("ts.len", T, list(ts.shape))
     for i in range(T):
@@ -110,6 +110,19 @@ def check(out, geom_name):
     te = np.asarray(frame.ts_ext, dtype=float)
     if te.shape != (T + 1,) or abs(te[-1] - T * dt) > 4 * np.spacing(T * dt) or not np.array_equal(te[:T], ts):
         raise Div("ts_ext", [T + 1, T * dt], [list(te.shape), float(te[-1]) if len(te) else None])
+    # the time axis moved in place after ts_ext has been read (then moved back by rebinding): ts_ext follows the current axis
+    k = fr.get("shift", 0)
+    if k:
+        keep = np.array(frame.ts, copy=True)
+        frame.ts += k * dt
+        te2 = np.asarray(frame.ts_ext, dtype=float)
+        want = np.array(out["tsExtMoved"], dtype=float) / TQ * dt
+        if te2.shape != want.shape or np.max(np.abs(te2 - want)) > 8 * np.spacing((T + k) * dt) or not np.array_equal(te2[:T], np.asarray(frame.ts, dtype=float)):
+            raise Div("ts_ext.after_moving_ts", want.tolist(), te2.tolist())
+        frame.ts = keep
+        te3 = np.asarray(frame.ts_ext, dtype=float)
+        if te3.shape != te.shape or np.max(np.abs(te3 - te)) > 8 * np.spacing((T + k) * dt):
+            raise Div("ts_ext.after_restoring_ts", te.tolist(), te3.tolist())
     if abs(frame.obs_length - T * dt) > 4 * np.spacing(T * dt) or abs(frame.t_stop - (frame.t_start + T * dt)) > 4 * np.spacing(frame.t_start + T * dt):
         raise Div("obs_length/t_stop", [T * dt, frame.t_start + T * dt], [frame.obs_length, frame.t_stop])
     if abs(frame.unit_drift_rate - df / dt) > 1e-14 * df / dt:
